@@ -54,18 +54,45 @@ theorem rotr_mod64 (x y : BitVec 64) :
 theorem ctz_zero32 : Wasm.ctz (0#32) = 32#32 := by decide
 theorem ctz_zero64 : Wasm.ctz (0#64) = 64#64 := by decide
 
+theorem ctzGo_le {w : Nat} (x : BitVec w) : ∀ n acc, Wasm.ctzGo x n acc ≤ acc + n := by
+  intro n
+  induction n with
+  | zero => intro acc; simp [Wasm.ctzGo]
+  | succ n ih =>
+    intro acc
+    simp only [Wasm.ctzGo]
+    split
+    · omega
+    · have := ih (acc + 1); omega
+
+theorem ctz_le64 (x : BitVec 64) : (Wasm.ctz x).ule 64#64 = true := by
+  have h := ctzGo_le x 64 0
+  simp only [Wasm.ctz, BitVec.ule, BitVec.toNat_ofNat, decide_eq_true_eq]
+  omega
+
+/-- the `int` result of `__builtin_ctzll`, converted back to `int64_t`, is the count itself -/
+theorem ctz_conv64 (x : BitVec 64) : BitVec.signExtend 64 (BitVec.setWidth 32 (Wasm.ctz x)) = Wasm.ctz x := by
+  have h := ctz_le64 x
+  generalize Wasm.ctz x = c at h
+  bv_decide
+
 macro "c03_simp" : tactic => `(tactic|
-  simp [-BitVec.shiftLeft_eq', -BitVec.ushiftRight_eq', -BitVec.sshiftRight_eq',
+  simp [-BitVec.shiftLeft_eq', -BitVec.ushiftRight_eq', -BitVec.sshiftRight_eq', ctz_conv64,
     Full0, Full1, Full2, Full3, Partial1, Partial2, Sound1, Sound2, expect_some, expect_none, expect_ite, ctzBV, ctz_zero32, ctz_zero64,
     wBin, wRel, wEqz, wUn, wWrap, wExtS, wExtU, wSelect, wConst, binop, relop, b2i, Wasm.unop,
     shl_mod32, shl_mod64, ushr_mod32, ushr_mod64, sshr_mod32, sshr_mod64, rotl_mod32, rotr_mod32, rotl_mod64, rotr_mod64,
     Guard.addOk, Guard.subOk, Guard.mulOk, Guard.divS, Guard.divU, Guard.cnt32, Guard.shlRepr, Guard.shl32, Guard.shl64,
     Guard.rotl32, Guard.rotr32, Guard.rotl64, Guard.rotr64,
     Res.bind_ok, Res.bind_ub, Res.bind_stuck, Res.map_ok, Res.map_ub, Res.map_stuck, Res.andThen_ok, Res.andThen_ub, Res.andThen_stuck,
-    finish_inl, finish_inr, seqSt_inl, seqSt_inr, orUB_some, orUB_none, orStuck_some, orStuck_none, Res.map_ite, orUB_ite, Res.bind_ite, Res.andThen_ite, finish_ite, seqSt_ite, conv_ite, castTo_ite,
-    ty_ite, isZero_ite, wide_ite, writeL_ite,
+    finish_inl, finish_inr, seqSt_inl, seqSt_inr, orUB_some, orUB_none, orStuck_some, orStuck_none, Res.map_ite, orUB_ite, Res.bind_ite,
+    Res.andThen_ite, finish_ite, seqSt_ite, conv_ite, castTo_ite, ty_ite, isZero_ite, wide_ite, writeL_ite,
     crun, cexec, ceval, look, writeL, CVal.ty, conv, uac, arith, sarith, uarith, scmp, ucmp, shiftOp, sshl, cunop, builtin,
     castTo, CExpr.ty, CastTy.ty, litVal, b2c, CVal.isZero, CVal.wide, CVal.count, BinOp.isShift, BinOp.isCmp])
+
+/-- peel the outcome / value constructors off an equation between two normal returns -/
+macro "c03_inj" : tactic => `(tactic|
+  simp only [Outcome.ret.injEq, Option.some.injEq, CVal.i32.injEq, CVal.i64.injEq, CVal.u32.injEq, CVal.u64.injEq, and_true, true_and,
+    reduceCtorEq])
 
 /-- rows: after symbolic execution a bit-vector statement (possibly under `if`s for the UB / trap conditions) remains -/
 macro "c03_tac" : tactic => `(tactic|
@@ -76,8 +103,20 @@ macro "c03_tac" : tactic => `(tactic|
      repeat' split
      all_goals first
        | rfl
-       | (simp_all; done)
-       | bv_decide
-       | (simp_all; bv_decide)))
+       | (subst_vars; simp [ctz_zero32, ctz_zero64]; done)
+       | (c03_inj; done)
+       | (c03_inj; bv_decide)
+       | bv_decide))
+
+/-- `Sound` rows: the C function returned, so no UB branch was taken; the value then is WebAssembly's -/
+macro "c03_sound" : tactic => `(tactic|
+  (c03_simp
+   intros
+   repeat' split
+   all_goals first
+     | (simp_all; done)
+     | (rename_i h; revert h; c03_inj; intros; subst_vars; first | rfl | bv_decide)
+     | (exfalso; bv_decide)
+     | bv_decide))
 
 end WaVerif.C03
